@@ -357,6 +357,10 @@ func runC01(r *Runner, g *Gen, tier string) string {
 		}
 		r.Do(codecOp("rt", cfg, t, "", (&Val{K: "r", L: append([]*Val{m}, zeroVal(t).L[1:]...)}).Sexp()), len(m.M) > 0, "rt.wide-keys")
 	}
+	// maps with pointer keys (identities, outside the value model): several entries, several decodes
+	for _, n := range []int{1, 2, 3, 7, 20} {
+		r.Do(L(A("ptrkeys"), A(fmt.Sprint(n))), true, "ptrkeys")
+	}
 	// a long history through one interned field: more distinct strings than any table limit one might pick
 	for _, n := range []int{257, scale(tier, 10000, 20000)} {
 		r.Do(L(A("internmany"), A(fmt.Sprint(n))), true, "internmany")
@@ -424,6 +428,12 @@ func runC02(r *Runner, g *Gen, tier string) string {
 	for i := 0; i < n; i++ {
 		cfg := g.pickCfg()
 		t, v := g.sample(cfg, 3)
+		if g.r.P(5) {
+			// pointer-shaped structs: the bytes are the same by value and by pointer
+			t = g.ifaceShaped()
+			b := 20
+			v = g.Value(t, &b)
+		}
 		if multiEntryMaps(v) {
 			// the encoding is fixed only up to entry order: hand the implementation's bytes to the model
 			res := execOp(codecOp("enc", cfg, t, "", v.Sexp()))
@@ -439,7 +449,7 @@ func runC02(r *Runner, g *Gen, tier string) string {
 
 func runC05(r *Runner, g *Gen, tier string) string {
 	n := scale(tier, 4000, 300000)
-	tags := [][]byte{{0x0a}, {0x08}, {0x92, 0x01}, {0xfa, 0xff, 0x01}}
+	tags := [][]byte{{0x0a}, {0x08}, {0x92, 0x01}, {0xfa, 0xff, 0x01}, {0x85, 0x80, 0x80, 0x01}, {0xfd, 0xff, 0xff, 0xff, 0x0f}}
 	for i := 0; i < n; i++ {
 		cfg := g.pickCfg()
 		t, v := g.sample(cfg, 3)
@@ -447,6 +457,27 @@ func runC05(r *Runner, g *Gen, tier string) string {
 			continue
 		}
 		r.Do(codecOp("laws", cfg, t, "", v.Sexp(), A(hx(tags[g.r.Intn(len(tags))]))), nontrivialVal(t, v), "laws")
+	}
+	// sizes at which a length prefix (or a count) changes width, for every repeating form, under tags of 1-5
+	// bytes: packed floats and ints, length-delimited and repeated elements, plain and proto maps (many
+	// entries: no fixed order, so only Size == len(Append) and the round trip are judged), nested one level
+	for _, cfg := range []string{"00", "11"} {
+		el := Struct(F("A", "1", B("int")))
+		shapes := []*TyDef{Slice(B("f32")), Slice(B("f64")), Slice(B("int")), Slice(B("str")), Slice(el), Slice(Ptr(el)),
+			Struct(F("S", "1", Slice(B("f32")))), Struct(F("N", "1", Struct(F("S", "2", Slice(B("f64")))))),
+			Struct(F("M", "1", Map(B("int"), B("int")))), Struct(&FieldDef{Name: "M", Exported: true, Plenc: "1,proto", T: Map(B("int"), B("int"))}),
+			Struct(F("N", "3", Struct(&FieldDef{Name: "M", Exported: true, Plenc: "70000,proto", T: Map(B("str"), B("str"))}))),
+			Struct(F("N", "3", Struct(&FieldDef{Name: "L", Exported: true, Plenc: "17,proto", T: Slice(Ptr(el))}))),
+			Struct(F("N", "300000", Struct(F("L", "262144", Slice(B("f32")))))),
+		}
+		for _, t := range shapes {
+			if knownShape(cfg, t, false) {
+				t = Struct(F("W", "1", t)) // the repeated form needs a field around it (F02)
+			}
+			for _, n := range []int{15, 16, 31, 32, 127, 128, 129, 2047, 2048, 4095, 4096, scale(tier, 130, 16384), scale(tier, 131, 16385)} {
+				r.Do(codecOp("lawsz", cfg, t, "", A(fmt.Sprint(n)), A(hx(tags[g.r.Intn(len(tags))]))), true, "lawsz")
+			}
+		}
 	}
 	// measured, changed in place, appended again into a re-used buffer: every length prefix is that of the value as it is now
 	mutStream(r, g, scale(tier, 500, 40000))
@@ -621,6 +652,40 @@ func runC09(r *Runner, g *Gen, tier string) string {
 			// (a re-used variable), the data says absent for some of them
 			prior := g.Value(t, &b)
 			r.Do(codecOp("decm", cfg, t, "", absentEntries(g, t, prior).Sexp(), prior.Sexp()), true, "decm.absent-over-present")
+		}
+		if i%5 == 0 {
+			// pointers to null values with VALID pointees (an invalid one is the pointer-to-pointer finding F03):
+			// present and empty must come back present and empty
+			nn := nullNames[g.r.Intn(5)]
+			pt := Struct(F("P", "1", Ptr(Ext(nn))), F("M", "2", Map(B("str"), Ptr(Ext(nn)))), F("X", "3", B("int")))
+			mkv := func() *Val {
+				if g.r.P(30) {
+					return &Val{K: "p"}
+				}
+				inner := zeroVal(extPayload[nn])
+				if g.r.P(40) {
+					bb := 6
+					inner = g.Value(extPayload[nn], &bb)
+				}
+				return &Val{K: "p", P: &Val{K: "p", P: inner}}
+			}
+			pv := &Val{K: "r", L: []*Val{mkv(), {K: "m", M: [][2]*Val{{{K: "s", Data: []byte("k")}, mkv()}}}, {K: "i", I: 1}}}
+			r.Do(codecOp("rt", cfg, pt, "", pv.Sexp()), true, "rt.ptr-to-null")
+		}
+		if i%7 == 0 {
+			// the repeated form read by the plain slice codec into a target that was cut to length 0: the
+			// appended slot holds a stale element whose pointer / null fields were present
+			el := Struct(F("P", "1", Ptr(B("int"))), F("N", "2", Ext("null.String")), F("Q", "3", Ptr(B("str"))), F("A", "4", B("int")))
+			lt := Struct(F("L", "1", Slice(el)))
+			full := func(k int) *Val {
+				return &Val{K: "r", L: []*Val{{K: "p", P: &Val{K: "i", I: int64(k)}}, {K: "p", P: &Val{K: "s", Data: []byte("old")}}, {K: "p", P: &Val{K: "s", Data: []byte("q")}}, {K: "i", I: 9}}}
+			}
+			sparse := &Val{K: "r", L: []*Val{{K: "p"}, {K: "p"}, {K: "p"}, {K: "i", I: int64(1 + g.r.Intn(5))}}}
+			oldV := &Val{K: "r", L: []*Val{{K: "l", L: []*Val{full(1), full(2), full(3)}}}}
+			newV := &Val{K: "r", L: []*Val{{K: "l", L: []*Val{sparse, sparse}}}}
+			ce, _ := parseSexp("(cfg 01 null)")
+			cd, _ := parseSexp("(cfg 00 null)")
+			r.Do(L(A("xdecm"), ce, cd, lt.Sexp(), newV.Sexp(), oldV.Sexp(), A("stale")), true, "xdecm.stale-presence")
 		}
 		if i%4 == 0 {
 			// … and the Descriptor flags explicit presence for exactly those fields
